@@ -30,6 +30,25 @@ def int_gate_env(index_param, isint):
             f'type({index_param}) is not int': not isint}
 
 
+class PatEnv(dict):
+    """Environment for fold(): exact bindings plus (regex -> value) bindings on the expression text."""
+    def __init__(self, exact, patterns=()):
+        super().__init__(exact)
+        import re
+        self.patterns = [(re.compile(p), v) for p, v in patterns]
+
+    def __contains__(self, k):
+        return dict.__contains__(self, k) or (isinstance(k, str) and any(p.search(k) for p, _ in self.patterns))
+
+    def __getitem__(self, k):
+        if dict.__contains__(self, k):
+            return dict.__getitem__(self, k)
+        for p, v in self.patterns:
+            if p.search(k):
+                return v
+        raise KeyError(k)
+
+
 def folder(env, func=None):
     """Branch-test evaluator for pathcond: folds a test under `env` (expression text ->
     value); with `func`, single-definition locals are inlined first, so a test on a
